@@ -51,6 +51,7 @@ def modelStep (d : DState) (op : List String) (_obs : List (List String)) : DSta
     let c := regRemove name d.chain
     ({ d with chain := c }, [renderChain c])
   | ["reset"] => ({ d with chain := reset d.chain }, [renderChain []])
+  | ["newset", _] => ({ d with store := construct d.store }, [])
   | ["set", l, v] =>
     match l.toNat?, v.toNat? with
     | some l, some v => ({ d with pending := d.pending ++ [(l, 1000 + v)] }, [])
@@ -90,7 +91,10 @@ deriving BEq
 structure Shadow where
   installed : List SPlugin := []           -- most recently installed first
   disabled  : List Nat := []               -- ids of disabled plugin objects
-  baseline  : List String := (List.range nLocs).map (fun l => s!"i{l}")   -- pointer values at the last restore point
+  -- pointer values at the last point where the table was empty (start, after a restore, after the
+  -- construction of a SetPointerPlugin); while `pending = 0` this is the memory before the next test
+  baseline  : List String := (List.range nLocs).map (fun l => s!"i{l}")
+  now       : List String := (List.range nLocs).map (fun l => s!"i{l}")   -- pointer values after the last test
   pending   : Nat := 0                     -- redirections recorded and not yet undone
   script    : Nat := 0                     -- redirections collected for the next test body
 
@@ -158,6 +162,10 @@ def specStep (sh : Shadow) (o : Proto.Op) : Except String Shadow := do
     | some p => if got != [toString p.id] then throw s!"getPluginByName({name}) did not return the installed plugin"
     | none => if got != ["none"] && got != ["sentinel"] then throw s!"getPluginByName({name}) returned a plugin that is not installed"
     return sh
+  | ["newset", _] =>
+    -- a fresh SetPointerPlugin starts with an empty table: entries recorded by earlier tests that ran
+    -- without an active plugin are never undone, the pointers keep what they hold now
+    return { sh with pending := 0, baseline := sh.now }
   | ["set", _, _] => return { sh with script := sh.script + 1 }
   | ["run", outcome] =>
     let some pre := obsLine "pre" o.obs | throw "no pre log"
@@ -184,11 +192,17 @@ def specStep (sh : Shadow) (o : Proto.Op) : Except String Shadow := do
     if sh.activeSet then
       if mem != sh.baseline then
         let bad := (List.range nLocs).filter (fun i => mem[i]? != sh.baseline[i]?)
-        throw s!"after the post actions pointer {bad.headD 0} (and {bad.length - 1} more) does not hold the value from before the first redirection"
-      return { sh with pending := 0, script := 0 }
+        if sh.pending == 0 then
+          -- the property's clause: the table was empty when the test started
+          throw s!"after the post actions pointer {bad.headD 0} (and {bad.length - 1} more) does not hold the value from before the first redirection"
+        else
+          -- entries of earlier tests that ran without an active plugin are still recorded: all of
+          -- them are undone now, back to the last point where the table was empty
+          throw s!"after the post actions pointer {bad.headD 0} (and {bad.length - 1} more) does not hold the value from the last point where the table was empty"
+      return { sh with pending := 0, script := 0, now := mem }
     else
       -- no active SetPointerPlugin: nothing is demanded of the pointer values; the entries stay recorded
-      return { sh with pending := sh.pending + done, script := 0 }
+      return { sh with pending := sh.pending + done, script := 0, now := mem }
   | _ => throw "bad-op"
 
 def specAll (ops : List Proto.Op) : Option String :=
